@@ -243,16 +243,16 @@ func (r *RibEntry) CleanUpFace(faceId uint64) {
 		return
 	}
 
-	for i, route := range r.routes {
+	// A face may hold several routes (different origins) on the same prefix
+	kept := make([]*Route, 0, len(r.routes))
+	for _, route := range r.routes {
 		if route.FaceID == faceId {
-			if i < len(r.routes)-1 {
-				copy(r.routes[i:], r.routes[i+1:])
-			}
-			r.routes = r.routes[:len(r.routes)-1]
 			readvertiseWithdraw(r.Name, route)
-			break
+		} else {
+			kept = append(kept, route)
 		}
 	}
+	r.routes = kept
 	r.updateNexthopsEnc()
 	r.pruneIfEmpty()
 }
